@@ -689,6 +689,193 @@ async fn blocking(r: &mut Rng) -> (String, String) {
     (sig, "ok".into())
 }
 
+/// forwards a byte stream and checks its framing: u32 little-endian length prefix, no frame longer than
+/// the limit of the endpoint that is going to read it (its chunk_size + MAX_MSG_LENGTH)
+async fn tee(mut from: tokio::io::ReadHalf<tokio::io::DuplexStream>, mut to: tokio::io::WriteHalf<tokio::io::DuplexStream>, limit: usize, bad: std::sync::Arc<std::sync::Mutex<Option<String>>>, frames: std::sync::Arc<std::sync::Mutex<Vec<usize>>>) {
+    use tokio::io::{AsyncReadExt, AsyncWriteExt};
+    let mut buf: Vec<u8> = Vec::new();
+    let mut tmp = vec![0u8; 4096];
+    loop {
+        let n = match from.read(&mut tmp).await {
+            Ok(0) | Err(_) => break,
+            Ok(n) => n,
+        };
+        buf.extend_from_slice(&tmp[..n]);
+        while buf.len() >= 4 {
+            let len = u32::from_le_bytes([buf[0], buf[1], buf[2], buf[3]]) as usize;
+            if len > limit {
+                bad.lock().unwrap().get_or_insert(format!("a frame of {len} bytes exceeds the reader's limit {limit}"));
+            }
+            if buf.len() < 4 + len {
+                break;
+            }
+            frames.lock().unwrap().push(len);
+            buf.drain(..4 + len);
+        }
+        if to.write_all(&tmp[..n]).await.is_err() {
+            break;
+        }
+    }
+    let _ = to.shutdown().await;
+}
+
+#[derive(serde::Serialize, serde::Deserialize)]
+enum IoItem {
+    Bytes(Vec<u8>),
+    /// each channel half is one port of a port batch
+    Chans(Vec<remoc::rch::mpsc::Receiver<u8>>),
+}
+
+/// C09: two endpoints with different configurations over a byte-stream transport (`Connect::io`):
+/// length-prefixed framing, every frame within the reader's announced limit, messages of all sizes
+/// relative to both chunk sizes and port batches of all sizes arrive intact in both directions.
+async fn stream_transport(r: &mut Rng) -> (String, String) {
+    use remoc::{codec, rch::base, Connect};
+    let pick_cfg = |r: &mut Rng| Cfg {
+        connection_timeout: None,
+        chunk_size: *r.pick(&[4u32, 9, 10, 16, 64, 1000, 16384]),
+        receive_buffer: *r.pick(&[64u32, 1000, 65536]),
+        max_data_size: 1 << 22,
+        max_ports: 4000,
+        ..Default::default()
+    };
+    let ca = pick_cfg(r);
+    let cb = pick_cfg(r);
+    let (a_io, mid_a) = tokio::io::duplex(1 << 12);
+    let (b_io, mid_b) = tokio::io::duplex(1 << 12);
+    let (a_r, a_w) = tokio::io::split(a_io);
+    let (b_r, b_w) = tokio::io::split(b_io);
+    let (ma_r, ma_w) = tokio::io::split(mid_a);
+    let (mb_r, mb_w) = tokio::io::split(mid_b);
+    let bad: std::sync::Arc<std::sync::Mutex<Option<String>>> = Default::default();
+    let fr_ab: std::sync::Arc<std::sync::Mutex<Vec<usize>>> = Default::default();
+    let fr_ba: std::sync::Arc<std::sync::Mutex<Vec<usize>>> = Default::default();
+    tokio::spawn(tee(ma_r, mb_w, cb.max_frame_length() as usize, bad.clone(), fr_ab.clone()));
+    tokio::spawn(tee(mb_r, ma_w, ca.max_frame_length() as usize, bad.clone(), fr_ba.clone()));
+    let small = ca.chunk_size.min(cb.chunk_size) as usize;
+    let big = ca.chunk_size.max(cb.chunk_size) as usize;
+    // what is sent: byte messages and port batches
+    let n_items = r.range(2, 5);
+    let plan: Vec<(bool, usize)> = (0..n_items)
+        .map(|_| match r.below(8) {
+            0 => (false, 0),
+            1 => (false, r.range(1, small as u64 + 1) as usize),
+            2 => (false, r.range(small as u64, big.min(2000) as u64 + 20) as usize),
+            3 => (false, big + r.range(0, 40) as usize),
+            4 => (false, 3 * big.min(2000) + r.range(0, 7) as usize),
+            5 => (true, r.range(1, 4) as usize),
+            6 => (true, (small / 8 + r.range(0, 4) as usize).clamp(1, 300)),
+            _ => (true, (small / 4 + r.range(0, 4) as usize).clamp(1, 300)),
+        })
+        .collect();
+    let sig = format!(
+        "streamio:{}:{}{}",
+        match ca.chunk_size.cmp(&cb.chunk_size) { std::cmp::Ordering::Less => "lt", std::cmp::Ordering::Equal => "eq", _ => "gt" },
+        if small < 10 { "tiny:" } else { "" },
+        if plan.iter().any(|p| p.0) { "ports" } else { "bytes" }
+    );
+    let (a, b) = tokio::join!(
+        Connect::io::<_, _, IoItem, IoItem, codec::Default>(ca.clone(), a_r, a_w),
+        Connect::io::<_, _, IoItem, IoItem, codec::Default>(cb.clone(), b_r, b_w),
+    );
+    let (conn_a, mut tx_a, mut rx_a): (_, base::Sender<IoItem, codec::Default>, base::Receiver<IoItem, codec::Default>) = match a {
+        Ok(x) => x,
+        Err(e) => return (sig, format!("FAIL: C09 connecting over a stream transport failed (chunk sizes {} / {}): {e}", ca.chunk_size, cb.chunk_size)),
+    };
+    let (conn_b, mut tx_b, mut rx_b) = match b {
+        Ok(x) => x,
+        Err(e) => return (sig, format!("FAIL: C09 connecting over a stream transport failed (chunk sizes {} / {}): {e}", ca.chunk_size, cb.chunk_size)),
+    };
+    let ja = tokio::spawn(conn_a);
+    let jb = tokio::spawn(conn_b);
+    let keep: std::sync::Arc<std::sync::Mutex<Vec<remoc::rch::mpsc::Sender<u8>>>> = Default::default();
+    let mk = |plan: &Vec<(bool, usize)>, keep: &std::sync::Arc<std::sync::Mutex<Vec<remoc::rch::mpsc::Sender<u8>>>>| -> Vec<IoItem> {
+        plan.iter()
+            .enumerate()
+            .map(|(i, (ports, n))| {
+                if *ports {
+                    IoItem::Chans((0..*n).map(|_| { let (tx, rx) = remoc::rch::mpsc::channel(1); keep.lock().unwrap().push(tx); rx }).collect())
+                } else {
+                    IoItem::Bytes((0..*n).map(|j| (i * 31 + j) as u8).collect())
+                }
+            })
+            .collect()
+    };
+    let m1 = mk(&plan, &keep);
+    let m2 = mk(&plan, &keep);
+    let sa = tokio::spawn(async move {
+        for m in m1 {
+            if let Err(e) = tx_a.send(m).await {
+                return Err(format!("{e}"));
+            }
+        }
+        Ok(tx_a)
+    });
+    let sb = tokio::spawn(async move {
+        for m in m2 {
+            if let Err(e) = tx_b.send(m).await {
+                return Err(format!("{e}"));
+            }
+        }
+        Ok(tx_b)
+    });
+    let shape = |m: &IoItem| -> (bool, usize, bool) {
+        match m {
+            IoItem::Bytes(b) => (false, b.len(), b.iter().enumerate().all(|(j, x)| *x == (b.first().copied().unwrap_or(0) as usize + j) as u8)),
+            IoItem::Chans(c) => (true, c.len(), true),
+        }
+    };
+    let mut got_a: Vec<(bool, usize, bool)> = Vec::new();
+    let mut got_b: Vec<(bool, usize, bool)> = Vec::new();
+    let mut held: Vec<IoItem> = Vec::new();
+    let mut err: Option<String> = None;
+    let mut idle = 0;
+    let mut progress = 0usize;
+    for _ in 0..200_000 {
+        quiesce().await;
+        while let Some(x) = rx_a.recv().now_or_never() {
+            match x {
+                Ok(Some(m)) => { got_a.push(shape(&m)); held.push(m) }
+                Ok(None) => { err.get_or_insert("end of stream at A".into()); break }
+                Err(e) => { err.get_or_insert(format!("A: {e}")); break }
+            }
+        }
+        while let Some(x) = rx_b.recv().now_or_never() {
+            match x {
+                Ok(Some(m)) => { got_b.push(shape(&m)); held.push(m) }
+                Ok(None) => { err.get_or_insert("end of stream at B".into()); break }
+                Err(e) => { err.get_or_insert(format!("B: {e}")); break }
+            }
+        }
+        if err.is_some() || (got_a.len() == plan.len() && got_b.len() == plan.len()) {
+            break;
+        }
+        let p = fr_ab.lock().unwrap().len() + fr_ba.lock().unwrap().len() + got_a.len() + got_b.len();
+        if p == progress {
+            idle += 1;
+            if idle > 50 {
+                break;
+            }
+        } else {
+            idle = 0;
+            progress = p;
+        }
+    }
+    let want: Vec<(bool, usize, bool)> = plan.iter().map(|(p, n)| (*p, *n, true)).collect();
+    if let Some(b) = bad.lock().unwrap().clone() {
+        return (sig, format!("FAIL: C09 stream framing (chunk sizes {} / {}, plan {plan:?}): {b}", ca.chunk_size, cb.chunk_size));
+    }
+    if ja.is_finished() || jb.is_finished() || err.is_some() || got_a != want || got_b != want {
+        let ea = if ja.is_finished() { ja.now_or_never().map(|r| format!("{r:?}")) } else { None };
+        let eb = if jb.is_finished() { jb.now_or_never().map(|r| format!("{r:?}")) } else { None };
+        return (sig, format!(
+            "FAIL: C09 endpoints with chunk sizes {} / {} do not interoperate over a stream transport (plan {plan:?}): received {}/{} of {}, error {err:?}, dispatchers {ea:?} {eb:?}",
+            ca.chunk_size, cb.chunk_size, got_a.len(), got_b.len(), plan.len()));
+    }
+    let _ = (sa, sb, held, keep);
+    (sig, "ok".into())
+}
+
 pub fn exec(inp: &[u128]) -> (Vec<u128>, String, String) {
     if inp.len() < 2 {
         return (vec![98], "net:malformed".into(), "ok".into());
@@ -704,6 +891,7 @@ pub fn exec(inp: &[u128]) -> (Vec<u128>, String, String) {
             1 => connects(&mut r).await,
             2 => closing(&mut r).await,
             4 => blocking(&mut r).await,
+            5 => stream_transport(&mut r).await,
             _ => faults(&mut r).await,
         };
         remoc::exec::verif::set_defer_seed(0);
